@@ -1984,10 +1984,13 @@ class TestGraph(object):
         # add previous results if traversed for the first time (could be parsed on demand)
         if len(test_node.results) == 0:
             # TODO: cannot do simpler comparison due to current limitations in the bridged form
+            # each previous result is added just once among all bridged nodes (they count their results together)
+            shared_results = test_node.shared_results
             previous_results = [
                 r
                 for r in self.runner.previous_results
                 if re.search(test_node.bridged_form, r["name"])
+                and not any(r is s for s in shared_results)
             ]
             logging.info(
                 f"Found {len(previous_results)} previous test results for {test_node}"
